@@ -418,6 +418,11 @@ def run(ctx):
     for i in range(ctx.budget(6, 100)):
         a = {"seed": int(rng.integers(1, 2 ** 31)), "pitch": int(rng.integers(1, 6)), "n": int(rng.integers(1, 14)),
              "keys": ["tkpea", "te", "a", "kp", "etk"][i % 5]}
+        if i % 3 == 2:
+            # more than ten pages (page names ...-log_10 sort before ...-log_2 as strings)
+            a["pitch"] = int(rng.integers(1, 4))
+            a["n"] = a["pitch"] * int(rng.integers(11, 15)) + int(rng.integers(0, a["pitch"] + 1))
+            ctx.count("collect_cli_more_than_ten_pages")
         ok, obs, req, text = oracle_collect_cli(a)
         ctx.case(("collect-cli", a["keys"], a["pitch"]))
         ctx.count("collect_cli")
